@@ -83,7 +83,7 @@ def generate(run_seed: int, tier: str) -> dict:
         "client_fn": swarm.random() < 0.5,
         "user_exc": swarm.random() < 0.5,
         "bad_input": swarm.random() < 0.6,
-        "interrupt": TIERS[tier].get("interrupt", False) and swarm.random() < 0.6,
+        "interrupt": swarm.random() < (0.6 if TIERS[tier].get("interrupt", False) else 0.25),
         "parsers": swarm.random() < 0.4,
     }
     # data objects
